@@ -1,0 +1,134 @@
+//go:build verif
+
+package commonmark
+
+// This file is only compiled with the "verif" build tag.
+// It exports aliases of unexported byte classifiers, line recognizers
+// and small scanners so that an external harness can enumerate them directly.
+// It adds no behavior to the package.
+
+// VerifClass returns one bit per byte classifier for c.
+func VerifClass(c byte) uint16 {
+	var m uint16
+	set := func(bit uint, b bool) {
+		if b {
+			m |= 1 << bit
+		}
+	}
+	set(0, isSpaceTabOrLineEnding(c))
+	set(1, isASCIILetter(c))
+	set(2, isASCIIDigit(c))
+	set(3, isASCIIPunctuation(c))
+	set(4, isASCIIControl(c))
+	set(5, isHex(c))
+	set(6, isUnquotedAttributeValueChar(c))
+	return m
+}
+
+// VerifToLowerASCII exposes toLowerASCII.
+func VerifToLowerASCII(c byte) byte { return toLowerASCII(c) }
+
+// VerifURLHexDigit exposes urlHexDigit.
+func VerifURLHexDigit(c byte) byte { return urlHexDigit(c) }
+
+// VerifIsUnicodeWhitespace exposes isUnicodeWhitespace.
+func VerifIsUnicodeWhitespace(c rune) bool { return isUnicodeWhitespace(c) }
+
+// VerifIsUnicodePunctuation exposes isUnicodePunctuation.
+func VerifIsUnicodePunctuation(c rune) bool { return isUnicodePunctuation(c) }
+
+// VerifThematicBreak exposes parseThematicBreak.
+func VerifThematicBreak(line []byte) int { return parseThematicBreak(line) }
+
+// VerifATXHeading exposes parseATXHeading.
+func VerifATXHeading(line []byte) (level int, content Span) {
+	h := parseATXHeading(line)
+	return h.level, h.content
+}
+
+// VerifSetextUnderline exposes parseSetextHeadingUnderline.
+func VerifSetextUnderline(line []byte) int { return parseSetextHeadingUnderline(line) }
+
+// VerifCodeFence exposes parseCodeFence.
+func VerifCodeFence(line []byte) (char byte, n int, info Span) {
+	f := parseCodeFence(line)
+	return f.char, f.n, f.info
+}
+
+// VerifListMarker exposes parseListMarker.
+func VerifListMarker(line []byte) (delim byte, n int, end int) {
+	m := parseListMarker(line)
+	return m.delim, m.n, m.end
+}
+
+// VerifLineCount exposes lineCount.
+func VerifLineCount(text []byte) int { return lineCount(text) }
+
+// VerifColumnWidth exposes columnWidth.
+func VerifColumnWidth(start int, b []byte) int { return columnWidth(start, b) }
+
+// VerifPadNulls exposes padNulls on a copy of b.
+func VerifPadNulls(b []byte, start int) []byte {
+	return padNulls(append([]byte(nil), b...), start)
+}
+
+// VerifUnpaddedNullLength exposes unpaddedNullLength.
+func VerifUnpaddedNullLength(b []byte) int { return unpaddedNullLength(b) }
+
+// VerifFillNulls exposes fillNulls on a copy of b.
+func VerifFillNulls(b []byte) []byte {
+	c := append([]byte(nil), b...)
+	fillNulls(c)
+	return c
+}
+
+// VerifIsBlankLine exposes isBlankLine.
+func VerifIsBlankLine(line []byte) bool { return isBlankLine(line) }
+
+// VerifIndentLength exposes indentLength.
+func VerifIndentLength(line []byte) int { return indentLength(line) }
+
+// VerifEmphasisFlags exposes emphasisFlags.
+func VerifEmphasisFlags(source []byte, span Span) uint8 { return emphasisFlags(source, span) }
+
+// VerifCharacterEscape exposes parseCharacterEscape.
+func VerifCharacterEscape(text []byte) int { return parseCharacterEscape(text) }
+
+// VerifAutolink exposes parseAutolink.
+func VerifAutolink(text []byte) int { return parseAutolink(text) }
+
+// VerifEmail exposes parseEmail.
+func VerifEmail(text []byte) int { return parseEmail(text) }
+
+// VerifHardLineBreakSpace exposes parseHardLineBreakSpace.
+func VerifHardLineBreakSpace(remaining []byte) (int, bool) {
+	return parseHardLineBreakSpace(remaining)
+}
+
+// VerifHTMLBlockConditions reports the number of HTML block conditions.
+func VerifHTMLBlockConditions() int { return len(htmlBlockConditions) }
+
+// VerifHTMLBlockStart exposes the start condition cond (0-based).
+func VerifHTMLBlockStart(cond int, line []byte) bool {
+	return htmlBlockConditions[cond].startCondition(line)
+}
+
+// VerifHTMLBlockEnd exposes the end condition cond (0-based).
+func VerifHTMLBlockEnd(cond int, line []byte) bool {
+	return htmlBlockConditions[cond].endCondition(line)
+}
+
+// VerifHTMLBlockCanInterrupt exposes canInterruptParagraph of cond (0-based).
+func VerifHTMLBlockCanInterrupt(cond int) bool {
+	return htmlBlockConditions[cond].canInterruptParagraph
+}
+
+// VerifEscapeHTML exposes escapeHTML.
+func VerifEscapeHTML(src []byte) []byte { return escapeHTML(nil, src) }
+
+// VerifFilterRaw runs filterRaw on raw with the given tag predicate.
+func VerifFilterRaw(raw []byte, pred func(tag []byte) bool) []byte {
+	r := &renderState{HTMLRenderer: &HTMLRenderer{FilterTag: pred}}
+	r.filterRaw(raw)
+	return r.dst
+}
